@@ -160,7 +160,7 @@ func c19Eval(c *run.Ctx, id string, prog *wgen.Program, src string, feats map[st
 		var kind, edited string
 		names := false
 		var undo func()
-		choice := r.Intn(6)
+		choice := r.Intn(7)
 		if prog == nil && choice >= 3 {
 			choice = r.Intn(3)
 		}
@@ -185,6 +185,14 @@ func c19Eval(c *run.Ctx, id string, prog *wgen.Program, src string, feats map[st
 		case 4:
 			kind = "trailing-commas"
 			edited = wgen.AddTrailingCommas(pr, r, r.Range(1, 10), false)
+		case 5:
+			// capture-free renames of parameters / locals to names of module-scope declarations (shadowing)
+			kind = "shadow-rename"
+			names = true
+			var nren int
+			undo, nren = wgen.ShadowEdit(prog.M, r, 3)
+			cov["shadow-renames"] += nren
+			edited = wgen.Print(prog.M).Src
 		default:
 			kind = "rename"
 			names = true
